@@ -8,6 +8,7 @@ use std::collections::BTreeMap;
 
 pub mod c01;
 pub mod c02;
+pub mod c03;
 pub mod c04;
 pub mod c05;
 pub mod c06;
@@ -17,6 +18,7 @@ pub mod c09;
 pub mod c10;
 pub mod c12;
 pub mod c13;
+pub mod c14;
 pub mod c15;
 pub mod c16;
 pub mod gen;
@@ -122,6 +124,7 @@ pub fn all() -> Vec<Box<dyn Property>> {
     vec![
         Box::new(c01::C01),
         Box::new(c02::C02),
+        Box::new(c03::C03),
         Box::new(c04::C04),
         Box::new(c05::C05),
         Box::new(c06::C06),
@@ -131,6 +134,7 @@ pub fn all() -> Vec<Box<dyn Property>> {
         Box::new(c10::C10),
         Box::new(c12::C12),
         Box::new(c13::C13),
+        Box::new(c14::C14),
         Box::new(c15::C15),
         Box::new(c16::C16),
     ]
